@@ -98,6 +98,21 @@ CHECKS = {
             "parse tree), every own statement has an entry, and after compiling the text the paired op is on the same line.",
             "Trusts T2A positions (ANTLR token positions of the repo grammar) and the op pairing of the lock-step product.",
             "DESIGN.md 3/C09"),
+    "C05": ("translation_validation",
+            "runtime monitoring: lock-step product of the inlining reference semantics and the compiled routines over macro layouts on disk; sys.addaudithook on open for the files read",
+            "Acyclic macro call graphs spread over seven directory layouts (./, ../, absolute, lookup paths with shadowing, diamond, "
+            "nested) and every definition order of single-file macro sets are compiled by the real compiler; behaviour must equal "
+            "the program with every call inlined, the files opened (audit hook) must be exactly those my resolver predicts.",
+            "Macro names unique per layout (clashes are not defined by the spec) except for lookup shadowing.",
+            "DESIGN.md 3/C05"),
+    "C08": ("exploration",
+            "runtime monitoring: K-COMPILE totality contract + position oracle through the lock-step pairing of reference statements and compiled ops",
+            "Programs are printed by my printer (canonical and random layouts, several statements per line), which records where "
+            "every statement, header and call starts, also inside imported macro files; the pairing of the product monitor tells "
+            "which statement / expansion produced each compiled op; entries, macro files, call positions, return addresses, the "
+            "included usage map and the recorded position marks are compared.",
+            "Several positions are accepted where the property says 'statement or header' (DESIGN.md 7); silent ops only need to point at some statement start.",
+            "DESIGN.md 3/C08"),
 }
 
 NOT_YET = {
